@@ -11,6 +11,8 @@
 #include "v_harness.h"
 #include "v_spec.h"
 
+#include "v_nocheck_push.h"
+
 /* ---- the observation list (bounded shape: at most V_LIST_MAX nodes, each its own allocation) ------ */
 #ifndef V_LIST_MAX
 #define V_LIST_MAX 3
@@ -39,10 +41,30 @@ static inline bool v_obs_same_key(const probe_t *a, const probe_t *b) {
 }
 
 /* ---- representation invariant of the per-interface record ------------------------------------- */
+/* every node of the list is a live object of its own (stated explicitly: implicit pointer checks are generated for
+ * the code under proof, not for the specification) */
+#define NODE_OK(p) (!(p) || V_RW_OK((p), sizeof(probe_t)))
+static inline bool v_nodes_ok(probe_t *h) {
+    probe_t *a0 = h;
+    if (!NODE_OK(a0)) return false;
+    probe_t *a1 = v_nx(a0);
+    if (!NODE_OK(a1)) return false;
+    probe_t *a2 = v_nx(a1);
+    if (!NODE_OK(a2)) return false;
+    probe_t *a3 = v_nx(a2);
+    if (!NODE_OK(a3)) return false;
+    probe_t *a4 = v_nx(a3);
+    if (!NODE_OK(a4)) return false;
+    probe_t *a5 = v_nx(a4);
+    if (!NODE_OK(a5)) return false;
+    probe_t *a6 = v_nx(a5);
+    return NODE_OK(a6);
+}
 #define ST_SHAPE(st) \
-    (V_RW_OK((st), sizeof(lltd_iface_state)) && (st)->see_list_count == v_list_len((st)->see_list) && \
+    (V_RW_OK((st), sizeof(lltd_iface_state)) && v_nodes_ok((st)->see_list) && (st)->see_list_count == v_list_len((st)->see_list) && \
      (st)->see_list_count <= V_LIST_MAX && (st)->mapper_known <= 1 && \
-     (((st)->small_icon == NULL) == ((st)->small_icon_size == 0)))
+     (((st)->small_icon == NULL) == ((st)->small_icon_size == 0)) && \
+     ((st)->small_icon == NULL || V_R_OK((st)->small_icon, (st)->small_icon_size)))
 /* ledger equation (C19): what is live is exactly the record, its observations and the cached icon */
 #define ST_LIVE(st) (1u + (st)->see_list_count + ((st)->small_icon != NULL ? 1u : 0u))
 
@@ -91,5 +113,104 @@ __CPROVER_assigns(g_led, st->mapper_seq, st->mapper_real, st->mapper_apparent, s
 __CPROVER_ensures(C06_EMIT_STATE(st, inFrame, __CPROVER_old(st->mapper_known), __CPROVER_old(st->mapper_real), __CPROVER_old(st->mapper_apparent))) /*@C06.emit-state C05.emit-state*/
 __CPROVER_ensures(C06_EMIT_BOUND(__CPROVER_old(g_led.tx_attempts), __CPROVER_old(g_led.live))) /*@C06.count-bound C19.emit-ledger C02.emit-bound*/
 ;
+
+/* =============================== C07 / C19: parseProbe, parseQuery =============================== */
+#ifndef LLTD_SEE_LIST_MAX
+#define V_SEE_MAX 0xFFFFFFFFu          /* the pinned tree has no cap */
+#else
+#define V_SEE_MAX LLTD_SEE_LIST_MAX
+#endif
+static inline bool v_pair_ok(const probe_t *a, const probe_t *b) { return !a || !b || !v_obs_same_key(a, b); }
+/* no observation twice: keys pairwise distinct (lists of at most 6 nodes) */
+static inline bool v_list_unique(probe_t *h) {
+    probe_t *a0 = h, *a1 = v_nx(a0), *a2 = v_nx(a1), *a3 = v_nx(a2), *a4 = v_nx(a3), *a5 = v_nx(a4);
+    return v_pair_ok(a0, a1) && v_pair_ok(a0, a2) && v_pair_ok(a0, a3) && v_pair_ok(a0, a4) && v_pair_ok(a0, a5) &&
+           v_pair_ok(a1, a2) && v_pair_ok(a1, a3) && v_pair_ok(a1, a4) && v_pair_ok(a1, a5) &&
+           v_pair_ok(a2, a3) && v_pair_ok(a2, a4) && v_pair_ok(a2, a5) &&
+           v_pair_ok(a3, a4) && v_pair_ok(a3, a5) && v_pair_ok(a4, a5);
+}
+static inline bool v_key_is(const probe_t *a, const uint8_t *eth_src, const uint8_t *real_src) {
+    return a && v_mac_eq(a->sourceAddr.a, eth_src) && v_mac_eq(a->realSourceAddr.a, real_src);
+}
+static inline bool v_list_has_key(probe_t *h, const uint8_t *eth_src, const uint8_t *real_src) {
+    probe_t *a0 = h, *a1 = v_nx(a0), *a2 = v_nx(a1), *a3 = v_nx(a2), *a4 = v_nx(a3), *a5 = v_nx(a4);
+    return v_key_is(a0, eth_src, real_src) || v_key_is(a1, eth_src, real_src) || v_key_is(a2, eth_src, real_src) ||
+           v_key_is(a3, eth_src, real_src) || v_key_is(a4, eth_src, real_src) || v_key_is(a5, eth_src, real_src);
+}
+#define ST_WF(st) (ST_SHAPE(st) && v_list_unique((st)->see_list))
+
+/* a recorded observation carries the frame's addresses and kind (type in network order: 1 = Probe, 0 = Train) */
+static inline bool v_obs_from_frame(const probe_t *p, const uint8_t *f) {
+    const uint8_t *t = (const uint8_t *)&p->type;
+    return t[0] == 0 && t[1] == (f[17] == 0x04 ? 1 : 0) && v_mac_eq(p->sourceAddr.a, f + 6) &&
+           v_mac_eq(p->destAddr.a, f) && v_mac_eq(p->realSourceAddr.a, f + 24);
+}
+/* recorded iff addressed to this station, not seen before, memory available and the list not full */
+#define PROBE_RECORDS(f, head0, count0, allocs0) \
+    (v_own_mac((const uint8_t *)(f) + 18) && !v_list_has_key((head0), (const uint8_t *)(f) + 6, (const uint8_t *)(f) + 24) && \
+     (count0) < V_SEE_MAX && V_ALLOC_OK(allocs0, 0))
+#define C07_PROBE(st, f, head0, count0, live0, allocs0, tx0) \
+    (g_led.tx_attempts == (tx0) && \
+     (PROBE_RECORDS(f, head0, count0, allocs0) \
+        ? ((st)->see_list_count == (count0) + 1u && (st)->see_list != NULL && v_nx((st)->see_list) == (head0) && \
+           v_obs_from_frame((st)->see_list, (const uint8_t *)(f)) && g_led.live == (live0) + 1u) \
+        : ((st)->see_list_count == (count0) && (st)->see_list == (head0) && g_led.live == (live0))))
+#define C07_PROBE_FOREIGN(st, f, head0, allocs0) \
+    (v_own_mac((const uint8_t *)(f) + 18) || ((st)->see_list == (head0) && g_led.allocs == (allocs0)))
+
+static void parseProbe(void *inFrame, lltd_iface_state *st, void *iface_ctx)
+__CPROVER_requires(PRE_frame(inFrame) && ST_WF(st))
+__CPROVER_requires(iface_ctx == g_ctx) /*@C17.ctx-passed*/
+__CPROVER_assigns(g_led, st->see_list, st->see_list_count)
+__CPROVER_ensures(C07_PROBE(st, inFrame, __CPROVER_old(st->see_list), __CPROVER_old(st->see_list_count), __CPROVER_old(g_led.live), __CPROVER_old(g_led.allocs), __CPROVER_old(g_led.tx_attempts))) /*@C07.probe-recorded-once C19.probe-ledger C02.probe-silent*/
+__CPROVER_ensures(C07_PROBE_FOREIGN(st, inFrame, __CPROVER_old(st->see_list), __CPROVER_old(g_led.allocs))) /*@C07.probe-foreign-ignored*/
+__CPROVER_ensures(ST_WF(st)) /*@C07.probe-wf C19.probe-wf*/
+;
+
+/* call-free pointer chains for assigns / frees clauses (at most 6 nodes) */
+#define PN(p) ((probe_t *)(p)->nextProbe)
+#define P1(h) PN(h)
+#define P2(h) PN(P1(h))
+#define P3(h) PN(P2(h))
+#define P4(h) PN(P3(h))
+#define P5(h) PN(P4(h))
+#define HAS1(h) ((h) != NULL)
+#define HAS2(h) (HAS1(h) && P1(h) != NULL)
+#define HAS3(h) (HAS2(h) && P2(h) != NULL)
+#define HAS4(h) (HAS3(h) && P3(h) != NULL)
+#define HAS5(h) (HAS4(h) && P4(h) != NULL)
+#define HAS6(h) (HAS5(h) && P5(h) != NULL)
+#define LIST_TARGETS(h) \
+    HAS1(h): __CPROVER_object_whole(h); HAS2(h): __CPROVER_object_whole(P1(h)); HAS3(h): __CPROVER_object_whole(P2(h)); \
+    HAS4(h): __CPROVER_object_whole(P3(h)); HAS5(h): __CPROVER_object_whole(P4(h)); HAS6(h): __CPROVER_object_whole(P5(h))
+#define LIST_FREES(h) \
+    HAS1(h): (h); HAS2(h): P1(h); HAS3(h): P2(h); HAS4(h): P3(h); HAS5(h): P4(h); HAS6(h): P5(h)
+
+/* descriptors one QueryResp can carry */
+#define V_QRESP_CAP ((v_eff_mtu() - 34u) / 20u)
+#define C07_QUERY_MAPPER(st, f) \
+    ((st)->mapper_seq == v_be16((const uint8_t *)(f) + 30) && (st)->mapper_known == 1 && \
+     v_mac_eq((st)->mapper_real.a, (const uint8_t *)(f) + 24) && v_mac_eq((st)->mapper_apparent.a, (const uint8_t *)(f) + 6))
+/* one response (if the buffer could be allocated); what was sent is released, what did not fit is kept */
+#define C07_QUERY_LIST(st, head0, count0, live0, allocs0, tx0) \
+    (!V_ALLOC_OK(allocs0, 0) \
+        ? (g_led.tx_attempts == (tx0) && (st)->see_list == (head0) && (st)->see_list_count == (count0) && g_led.live == (live0)) \
+        : (g_led.tx_attempts == (tx0) + 1u && \
+           ((count0) > V_QRESP_CAP \
+              ? ((st)->see_list_count == (count0) - V_QRESP_CAP && (st)->see_list != NULL && \
+                 g_led.live == (live0) - V_QRESP_CAP) \
+              : ((st)->see_list_count == 0 && (st)->see_list == NULL && g_led.live == (live0) - (count0)))))
+
+static void parseQuery(void *inFrame, lltd_iface_state *st, void *iface_ctx)
+__CPROVER_requires(PRE_frame(inFrame) && ST_WF(st))
+__CPROVER_requires(iface_ctx == g_ctx) /*@C17.ctx-passed*/
+__CPROVER_assigns(g_led, st->see_list, st->see_list_count, st->mapper_seq, st->mapper_real, st->mapper_apparent, st->mapper_known)
+__CPROVER_assigns(LIST_TARGETS(st->see_list))
+__CPROVER_frees(LIST_FREES(st->see_list))
+__CPROVER_ensures(C07_QUERY_MAPPER(st, inFrame)) /*@C07.query-mapper C05.query-mapper*/
+__CPROVER_ensures(C07_QUERY_LIST(st, __CPROVER_old(st->see_list), __CPROVER_old(st->see_list_count), __CPROVER_old(g_led.live), __CPROVER_old(g_led.allocs), __CPROVER_old(g_led.tx_attempts))) /*@C07.query-delivers-all C19.query-ledger C02.query-single*/
+__CPROVER_ensures(ST_SHAPE(st)) /*@C07.query-wf C19.query-wf*/
+;
+#include "v_nocheck_pop.h"
 
 #endif
